@@ -422,6 +422,7 @@ func TestCheck(t *testing.T) {
 
 	do := func(c Case) bool {
 		rec.Eval()
+		rec.SetCurrent(c.Op, c)
 		var msg string
 		var workers int
 		if raceEnabled {
@@ -510,6 +511,32 @@ func TestCheck(t *testing.T) {
 			do(Case{Op: "gen", Coder: "vand", D: 3, P: 2, Len: l, G: g, Procs: procs[idx%len(procs)], Seed: uint64(idx)})
 			do(Case{Op: "rec", Coder: "cauchy", D: 4, P: 3, Len: l, G: g, Procs: procs[idx%len(procs)], MissD: []int{1, 3}, Seed: uint64(idx)})
 		}
+	}
+	// long shards, repeated many times: schedule-dependent failures in the hand-out of work (blocks claimed twice / past the end)
+	for gi, g := range []int{2, 3, 4, 8, 16} {
+		// two 64 KiB blocks and a bit per goroutine, not a multiple of 64 KiB; many workers finishing at about the same time
+		l := g*2*65536 + 65536 + 1000
+		if !cfg.Mine(7000+gi) && !cfg.Mine(7008+gi) {
+			continue
+		}
+		reps := cfg.N(500, 4000)
+		if raceEnabled {
+			reps /= 8
+		}
+		rec.Class("long-shard-repetitions")
+		for r := 0; r < reps; r++ {
+			if !do(Case{Op: "gen", Coder: "cauchy", D: 1, P: 1, Len: l, G: g, Procs: 16, Seed: uint64(r%5 + 1)}) {
+				break
+			}
+		}
+	}
+	// per-goroutine ranges that are exact multiples of 16 MiB
+	for hi, lg := range [][2]int{{1 << 24, 1}, {1 << 24, 2}, {1 << 25, 2}, {1 << 25, 1}, {3 << 24, 3}} {
+		if !cfg.Mine(7500+hi) || raceEnabled || (hi > 1 && !cfg.Thorough()) {
+			continue
+		}
+		rec.Class("per-goroutine-range-multiple-of-16MiB")
+		do(Case{Op: "gen", Coder: "cauchy", D: 2, P: 1, Len: lg[0], G: lg[1], Procs: 4, Seed: uint64(hi + 1)})
 	}
 	// reconstruction matrices that contain the coefficients 0 and 1 (fast paths), found by a reference search over parity rows
 	for wi, w := range []struct {
